@@ -379,9 +379,15 @@ static inline size_t vf_map_%(G)s_erase(struct vf_map_%(G)s* s, %(A)s k)
   return 1;
 #endif
 }
+static inline struct vf_pair_%(G)s* vf_map_%(G)s_erase_it(struct vf_map_%(G)s* s, struct vf_pair_%(G)s* it)
+{
+  __CPROVER_assert(it != s->e + s->n, "vf_map erase(iterator): not end()");
+  vf_map_%(G)s_erase(s, it->first);
+  return it;
+}
 '''
 
-IHOOK = "struct vf_ihook { _Bool linked; }; /* boost::intrusive::list_member_hook<>: only is_linked() is observable */\n"
+IHOOK ="struct vf_ihook { _Bool linked; }; /* boost::intrusive::list_member_hook<>: only is_linked() is observable */\n"
 
 ILIST = r'''
 /* ---- model of boost::intrusive::list<%(S)s, member_hook<.., &%(S)s::%(H)s>>: the linked elements in list order are
